@@ -60,6 +60,100 @@ func allChecks() []Check {
 			Assumptions: append([]string{"token-level harnesses replace (*Scanner).Scan by a stub that returns symbolic token kinds from the scanner image established by C14/scanstep (kind-in-image); native replays render the tokens to text and run the real scanner"}, commonAssumptions...),
 		},
 		{
+			ID: "C04", Title: "Decimal arithmetic is exact; nothing passes through binary floating point",
+			Runs: []HarnessRun{
+				{Harness: "VP_C04_entry_int", Quick: map[string]int{"LO": 0, "HI": 63}, MustReach: []string{"C04/entry-int/done"}, PanicLabel: "C04/entry-int/no-panic"},
+				{Harness: "VP_C04_entry_int", Quick: map[string]int{"LO": -1, "HI": 0}, MustReach: []string{"C04/entry-int/done"}, PanicLabel: "C04/entry-int/no-panic"},
+			},
+			Bounds:      map[string]string{"entry-int": "a Go int64 / int / int32 data value n (one symbolic 64-bit value, 1 <= |n| < 2^63, plus |n| < 1000 incl. 0) read back through the evaluator equals n exactly"},
+			Outside:     []string{"n = MinInt64"},
+			Assumptions: commonAssumptions,
+		},
+		{
+			ID: "C05", Title: "Ordering and equality are lawful and representation-independent",
+			Runs: []HarnessRun{
+				{Harness: "VP_C05_numbers", Quick: map[string]int{"CB": 1000000, "E": 2}, Thorough: map[string]int{"CB": 1000000000, "E": 4}, MustReach: []string{"C05/numbers/done"}, PanicLabel: "C05/numbers/no-panic"},
+				{Harness: "VP_C05_strings", Quick: map[string]int{"S": 3}, Thorough: map[string]int{"S": 5}, MustReach: []string{"C05/strings/done"}, PanicLabel: "C05/strings/no-panic"},
+				{Harness: "VP_C05_kinds", Quick: map[string]int{}, MustReach: []string{"C05/kinds/done"}, PanicLabel: "C05/kinds/no-panic"},
+			},
+			Bounds: map[string]string{"numbers": "a, b = (-1)^s * c * 10^e with symbolic sign and coefficient c < CB, every exponent pair in [-E,E]^2 (so every spelling 1, 1.0, 10e-1 of a value is a (c,e) pair), incl. -0; all eight operators evaluated by the real runner (real decimal.Cmp executed symbolically) vs exact integer order at the common exponent; quick CB=10^6,E=2; thorough CB=10^9,E=4",
+				"strings": "two strings of 0..S symbolic bytes vs an explicit byte-wise loop; quick S=3, thorough S=5",
+				"kinds":   "operands over {null, typed nil pointer, bool, number (c<1000, e in -1..1), string (<=1 byte)}^2 for == != === !=="},
+			Outside:     []string{"coefficients beyond 64 bits (34-digit values)", "NaN / infinity ordering", "== and relational operators on operands of different kinds (statement silent)"},
+			Assumptions: commonAssumptions,
+		},
+		{
+			ID: "C06", Title: "One notion of truthiness drives every selection operator",
+			Runs: []HarnessRun{
+				{Harness: "VP_C06_truthiness", Quick: map[string]int{}, MustReach: []string{"C06/done"}, PanicLabel: "C06/no-panic", SampleEvery: 13},
+			},
+			Bounds:      map[string]string{"truthiness": "condition value over {null, typed nil pointer, bool, finite number (symbolic, incl. 0 and -0), NaN, +-Inf, string of 0..2 symbolic bytes, arrays, map, time, func} x {!!x, !x, c?a:b with recording branches, &&, ||, ??, one nested form}"},
+			Outside:     []string{"!x on strings / composites / typed nil pointers (statement covers booleans, numbers and null)"},
+			Assumptions: commonAssumptions,
+		},
+		{
+			ID: "C07", Title: "Locals bind and sequence left to right; caller data is never modified",
+			Runs: []HarnessRun{
+				{Harness: "VP_C07_locals", Quick: map[string]int{"N": 2, "D": 2}, Thorough: map[string]int{"N": 3, "D": 2}, MustReach: []string{"C07/locals/value", "C07/locals/error"}, PanicLabel: "C07/locals/no-panic"},
+			},
+			Bounds:      map[string]string{"locals": "programs chosen symbolically over {literal, $a/$b read, x/y read, $n = e, e,e, [e,e], f(e,e) (recording host function), c?e:e, (e), forbidden targets x=e, 1=e, x.k=e} with at most N+1 generated nodes, against a store-passing reference evaluator; frame condition by the engine's write monitor over every cell reachable from the data map plus a native-checkable snapshot comparison"},
+			Outside:     []string{"programs larger than the bound"},
+			Assumptions: append([]string{"write monitor: Store / map update / delete / clear instructions of the SSA code are intercepted; writes inside reflect.Value.Set* models are intercepted in SetMapIndex"}, commonAssumptions...),
+		},
+		{
+			ID: "C10", Title: "Referenced-field analysis is exact and sufficient",
+			Runs: []HarnessRun{
+				{Harness: "VP_C10_fields", Quick: map[string]int{"N": 2, "D": 2}, Thorough: map[string]int{"N": 3, "D": 2}, MustReach: []string{"C10/fields/done", "C10/fields/refused"}, PanicLabel: "C10/fields/no-panic"},
+			},
+			Bounds:      map[string]string{"fields": "formulas chosen symbolically over identifiers (one name with a symbolic first byte in {'$','q'}), dotted paths of depth 2-3, literals, this, +, $l = e, ?:, arrays, parentheses, typeof, prefix -, calls, spread calls, callee paths, member access on a parenthesised expression; expected set from an independent walker; sufficiency by evaluating against the full and the restricted data map"},
+			Outside:     []string{"whether an assignment target $x is listed (written, not read: accepted either way)", "formulas using this are not judged"},
+			Assumptions: commonAssumptions,
+		},
+		{
+			ID: "C16", Title: "Names and member access read the caller's data, null-safely",
+			Runs: []HarnessRun{
+				{Harness: "VP_C16_access", Quick: map[string]int{"D": 2}, Thorough: map[string]int{"D": 3}, MustReach: []string{"C16/access/value", "C16/access/error"}, PanicLabel: "C16/access/no-panic"},
+			},
+			Bounds:      map[string]string{"access": "root name from a pool of 17 (nested map, typed maps incl. zero values, struct, nil, typed nil pointer, int/int32/int64/float64/string/bool/time/slice, a key colliding with a builtin, missing, this) followed by 0..D selectors over a pool of 12 present/absent keys with symbolic '.' / '!.' flags, against a reference lookup written with type switches"},
+			Outside:     []string{"member access on scalars, slices, times, pointers to structs and missing/unexported struct fields (statement silent; the latter is C03's subject)", "symbolic integer leaves (C04/entry)"},
+			Assumptions: commonAssumptions,
+		},
+		{
+			ID: "C17", Title: "String builtins obey the laws of prefix, suffix, slice and pad",
+			Runs: []HarnessRun{
+				{Harness: "VP_C17_search", Quick: map[string]int{"S": 3}, Thorough: map[string]int{"S": 5}, MustReach: []string{"C17/search/done"}, PanicLabel: "C17/search/no-panic"},
+				{Harness: "VP_C17_slice", Quick: map[string]int{"S": 3}, Thorough: map[string]int{"S": 5}, MustReach: []string{"C17/slice/done"}, PanicLabel: "C17/slice/no-panic"},
+				{Harness: "VP_C17_pad", Quick: map[string]int{"S": 3}, Thorough: map[string]int{"S": 4}, MustReach: []string{"C17/pad/done"}, PanicLabel: "C17/pad/no-panic"},
+				{Harness: "VP_C17_transform", Quick: map[string]int{"S": 3}, Thorough: map[string]int{"S": 4}, MustReach: []string{"C17/transform/done"}, PanicLabel: "C17/transform/no-panic"},
+				{Harness: "VP_C17_lists", Quick: map[string]int{"S": 2}, Thorough: map[string]int{"S": 3}, MustReach: []string{"C17/lists/done"}, PanicLabel: "C17/lists/no-panic"},
+			},
+			Bounds:      map[string]string{"all": "builtins fetched by name through the runner; strings of 0..S symbolic bytes (transform: ASCII), one symbolic pad byte, symbolic 64-bit positions assumed in range as the statement says; oracles are definitional loops and the algebraic laws"},
+			Outside:     []string{"regexp (symbolic subject/pattern cannot be encoded)", "lower/upper/trim on non-ASCII text", "replace with an empty search string", "panics on out-of-range positions are C03's subject (the harness recovers and judges returned values only)"},
+			Assumptions: append([]string{"strings.Index / bytealg primitives are modelled by naive loops per their documented contract"}, commonAssumptions...),
+		},
+		{
+			ID: "C18", Title: "Numeric builtins and bit operators compute what their names say",
+			Runs: []HarnessRun{
+				{Harness: "VP_C18_rounding", Quick: map[string]int{"CB": 1000, "E": 2}, Thorough: map[string]int{"CB": 1000000, "E": 4}, MustReach: []string{"C18/rounding/done"}, PanicLabel: "C18/rounding/no-panic"},
+				{Harness: "VP_C18_minmax", Quick: map[string]int{"N": 2, "CB": 100}, Thorough: map[string]int{"N": 3, "CB": 100}, MustReach: []string{"C18/minmax/done"}, PanicLabel: "C18/minmax/no-panic"},
+				{Harness: "VP_C18_conv", Quick: map[string]int{"CB": 1000, "E": 2}, Thorough: map[string]int{"CB": 100000, "E": 3}, MustReach: []string{"C18/conv/done"}, PanicLabel: "C18/conv/no-panic"},
+				{Harness: "VP_C18_bits", Quick: map[string]int{"B": 20}, Thorough: map[string]int{"B": 31}, MustReach: []string{"C18/bits/done"}, PanicLabel: "C18/bits/no-panic"},
+				{Harness: "VP_C18_bigints", Quick: map[string]int{"LO": 0, "HI": 62}, MustReach: []string{"C18/bigints/done"}, PanicLabel: "C18/bigints/no-panic"},
+			},
+			Bounds:      map[string]string{"rounding": "abs ceil floor round roundBank on x = (-1)^s * c * 10^e, c < CB symbolic, e in -E..1 (library Quantize/RoundToInt executed symbolically)", "minmax": "lists of 1..N symbolic numbers", "conv": "toInt, toFloat (numbers and texts of 1..4 bytes over {0-9 . e - space x}), toString round trip (c < 1000), finite", "bits": "& | ^ ~ on integers |v| < 2^B vs two's complement", "bigints": "toInt(n) and n & n for one symbolic integer 1 <= |n| < 2^62"},
+			Outside:     []string{"sqrt exp ln log (iterative big-number algorithms: not encodable)", "arguments with more digits than the bounds"},
+			Assumptions: commonAssumptions,
+		},
+		{
+			ID: "C20", Title: "A runner behaves like a plain map of data plus a separate key-value store",
+			Runs: []HarnessRun{
+				{Harness: "VP_C20_runner", Quick: map[string]int{"N": 3}, Thorough: map[string]int{"N": 4}, MustReach: []string{"C20/runner/done"}, PanicLabel: "C20/runner/no-panic"},
+			},
+			Bounds:      map[string]string{"runner": "every sequence of N operations over {SetThis(nil | {a:v} | {$x:7}), SetThisValue(a|$x, v), evaluate one of 7 formulas reading/assigning $x and a, Set(k,v), Get(k)} from both initial states, against the two-map model; quick N=3, thorough N=4"},
+			Outside:     []string{"longer histories"},
+			Assumptions: commonAssumptions,
+		},
+		{
 			ID: "C12", Title: "Numeric literals denote exactly the decimal number written",
 			Runs: []HarnessRun{
 				{Harness: "VP_C12_literals", Quick: map[string]int{"L": 4}, Thorough: map[string]int{"L": 6}, MustReach: []string{"C12/literals/wellformed", "C12/literals/malformed"}, PanicLabel: "C12/literals/no-panic"},
